@@ -79,6 +79,7 @@ Record breq := {
   q_random_boundary : bytes;      (* multipart.NewWriter's random boundary *)
   q_marshal : bool;               (* Request.marshalBody != nil *)
   q_raw : option bytes;           (* Request.Body set by the caller *)
+  q_stream : option bytes;        (* SetBody(io.Reader): everything the reader delivers *)
   q_rct : bytes;                  (* request-level Content-Type header ([] = none) *)
   q_cct : bytes                   (* client-level Content-Type header *)
 }.
@@ -88,7 +89,8 @@ Inductive plan :=
 | PError                                         (* the request fails before anything is sent *)
 | PBody (ct body : bytes)                        (* Content-Type := ct, body *)
 | PMarshal (m : marshaller) (ct : option bytes)  (* marshalled value; Some ct = Content-Type set *)
-| PRaw (body : bytes) (detect : bool).           (* caller's bytes; detect = DetectContentType applies *)
+| PRaw (body : bytes) (detect : bool)            (* caller's bytes; detect = DetectContentType applies *)
+| PStream (body : bytes).                        (* caller's reader, sent as it is (GetBody set by SetBody) *)
 
 (* writeMultiPart: ordered pairs, then the plain form data in map order, then the files *)
 Definition multipart_fields (q : breq) : list (bytes * bytes) :=
@@ -104,16 +106,18 @@ Definition multipart_fields_pinned (q : breq) : list (bytes * bytes) :=
   end.
 
 Section Plan.
+  Variable is_print : N -> bool.
   Variable sniff : bytes -> bytes.
 
   Definition plan_of (q : breq) : plan :=
     if payload_forbidden (q_method q) (q_allow_get q) then PNone
     else if q_multipart q then
       if Nat.odd (length (q_ordered q)) then PError
+      else if negb (forallb (fun kv => field_name_ok (fst kv)) (multipart_fields q)) then PError
       else if q_file_fail q then PError
       else
         let b := effective_boundary (q_custom_boundary q) (q_random_boundary q) in
-        PBody (form_data_content_type b) (multipart_body sniff b (multipart_fields q) (q_files q))
+        PBody (form_data_content_type b) (multipart_body is_print sniff b (multipart_fields q) (q_files q))
     else
       match form_plan_of (q_rform q) (q_cform q) (q_ordered q) with
       | FBody b => PBody form_ct b
@@ -123,7 +127,7 @@ Section Plan.
             let '(m, ct) := choose_marshaller (q_rct q) (q_cct q) in PMarshal m ct
           else match q_raw q with
                | Some b => PRaw b (match q_rct q, q_cct q with [], [] => true | _, _ => false end)
-               | None => PNone
+               | None => match q_stream q with Some b => PStream b | None => PNone end
                end
       end.
 End Plan.
